@@ -60,8 +60,15 @@ static GATE_ARMED: AtomicBool = AtomicBool::new(false);
 static GATE: Mutex<(bool, bool)> = Mutex::new((false, false)); // (someone is blocked, released)
 static GATECV: Condvar = Condvar::new();
 
+/// the next time a handler task passes the point conn.read it panics (a real panic INSIDE the handler task, not an
+/// error of the store call: the task unwinds through the handler's code)
+static PANIC_AT_CONN_READ: AtomicBool = AtomicBool::new(false);
+
 fn install_hooks() {
     bitcask::verif::set_callback(Some(Arc::new(|name, fields| {
+        if name == "conn.read" && PANIC_AT_CONN_READ.swap(false, Ordering::SeqCst) {
+            panic!("injected panic in the connection handler");
+        }
         let d = DELAY_US.load(Ordering::Relaxed);
         if d > 0 && matches!(name, "put.publishing" | "del.publishing" | "write.appended" | "get.looked_up" | "get.popped" | "merge.copied") {
             // pseudo-random delay 0..d at the linearization-relevant points
@@ -851,6 +858,9 @@ fn hostile_mode(inputs: &[Value], _seed: u64, si: usize, sn: usize, out: &mut Tr
             drop(fillers);
             std::thread::sleep(Duration::from_millis(50));
         }
+        if inp["special"].as_str() == Some("handler-panic") {
+            PANIC_AT_CONN_READ.store(true, Ordering::SeqCst);
+        }
         // the hostile connection
         let mut hostile_recv = vec![];
         let mut hostile_end = "connect-failed";
@@ -867,6 +877,7 @@ fn hostile_mode(inputs: &[Value], _seed: u64, si: usize, sn: usize, out: &mut Tr
                 lingering = Some(hs);
             }
         }
+        PANIC_AT_CONN_READ.store(false, Ordering::SeqCst);
         ask(&mut control, cmd(&[b"GET", &ck]), &mut ctl);
         ask(&mut control, cmd(&[b"GET", b"victim"]), &mut ctl);
         // a fresh connection is still accepted and served
@@ -1077,6 +1088,17 @@ fn limit_mode(inputs: &[Value], _seed: u64, si: usize, sn: usize, out: &mut Trac
                     tl.send(&vc, "half");
                     let _ = victim.write_all(b"*2\r\n$3\r\nGE");
                     set_linger0(&victim);
+                    tl.close(&vc);
+                    drop(victim);
+                }
+                "handler-panic" => {
+                    // the handler task itself panics while it serves this connection (at its next read)
+                    tl.send(&vc, "boom");
+                    PANIC_AT_CONN_READ.store(true, Ordering::SeqCst);
+                    let _ = victim.write_all(&cmd(&[b"GET", b"k"]));
+                    let (_, e) = read_some(&mut victim, 1, slow);
+                    steps.push(json!({"step": "panic-closed-by-server", "ended": e}));
+                    PANIC_AT_CONN_READ.store(false, Ordering::SeqCst);
                     tl.close(&vc);
                     drop(victim);
                 }
